@@ -28,7 +28,7 @@ pub const FAULTS: [&str; 15] = [
     "partial_out_term",
 ];
 
-pub const WATCHDOG_S: f64 = 60.0;
+pub const WATCHDOG_S: f64 = 20.0;
 
 fn real_rustfmt() -> Option<String> {
     if let Ok(p) = std::env::var("VERIF_REAL_RUSTFMT") {
